@@ -1389,3 +1389,30 @@ Proof.
   intros [I T] H. destruct (heap_removeMin_spec w n w' I H) as (_ & I' & P & Hin).
   split; [split; [exact I'|apply (heap_removeMin_tight w n w' I T H)]|auto].
 Qed.
+
+(** the whole minimum block leaves the heap (ParallelStabilize) *)
+Lemma heap_takeMinBlock_tight w b w' :
+  HeapSpec.inv w -> heap_tight w -> Heap.takeMinBlock w = (b, w') -> heap_tight w'.
+Proof.
+  intros I T H. destruct (heap_takeMinBlock_spec w b w' I H) as (I' & _).
+  unfold Heap.takeMinBlock in H.
+  destruct (scan_from _ _) as [x|]; [|injection H as _ <-; exact T].
+  set (bs := <[x := []]> (Heap.buckets w)) in *.
+  injection H as _ <-. intros Hpos. cbn [Heap.cnt] in Hpos. cbn [Heap.minH Heap.bucket Heap.buckets].
+  fold (bk bs (Z.to_nat (nextMinFrom bs (Heap.cnt w - Z.of_nat (length (Heap.bucket w x))) 0))).
+  apply nextMin_nonempty; [exact Hpos|].
+  pose proof (inv_cnt _ I') as Hcnt. unfold Heap.ids in Hcnt. cbn [Heap.cnt Heap.buckets] in Hcnt.
+  destruct (concat bs) as [|m l] eqn:Ecc; [simpl in Hcnt; lia|].
+  assert (Hmc : m ∈ concat bs) by (rewrite Ecc; left).
+  apply elem_of_concat_bk in Hmc as [y Hy]. exists y. split; [simpl; lia|].
+  intros E. assert (E' : bk bs y = []) by exact E. rewrite E' in Hy. inversion Hy.
+Qed.
+
+Lemma takeMinBlock_spec w b w' :
+  hinv w -> Heap.takeMinBlock w = (b, w') ->
+  hinv w' /\ Heap.ids w ≡ₚ b ++ Heap.ids w' /\
+  forall m, Heap.hinOf w' m = if bool_decide (m ∈ b) then unset else Heap.hinOf w m.
+Proof.
+  intros [I T] H. destruct (heap_takeMinBlock_spec w b w' I H) as (I' & P & _ & _ & _ & Hin).
+  split; [split; [exact I'|apply (heap_takeMinBlock_tight w b w' I T H)]|auto].
+Qed.
